@@ -564,6 +564,14 @@ class CHECK(Check):
             return [f"fn.names {proto.strs(names_data_columns(case))} {names_token(case['sf'], case['n'])} "
                     f"{'absent' if case['cf'] is None else names_token(case['cf'], case['n'])}"]
         n = len(case["y"])
+        # the driver op fm.eval does not check the lengths of the sample-parameter arrays (Model/FrameMulti.lean pads a short
+        # column with 0 where real MetricFrame raises ValueError; C01.short_param_padded_artifact): never send such a line
+        for s in case["specs"]:
+            for pn, v in spec_params(s):
+                if v is not None and len(v) != n:
+                    raise ValueError(f"harness: sample parameter {pn!r} has {len(v)} values for {n} rows")
+        if len(case["pred"]) != n or any(len(c) != n for c in case["cf"] + case["sf"]):
+            raise ValueError("harness: column lengths of the case differ")
         ys, ps = proto.lst([F(v) for v in case["y"]]), proto.lst([F(v) for v in case["pred"]])
         cols = " ".join(proto.strs(c) for c in self._cols(case))
         ls = []
